@@ -17,7 +17,7 @@ LEVEL_RULE = (
 )
 EXHAUSTIVE_SUBDOMAINS = ["DF 0..31 x {56,112} bits x {upper,lower,mixed} for structured addresses (single-bit, all-ones, zero)"]
 ASSUMPTIONS = ["canonical form = the string icao() returns for an upper-case DF20 frame of the same address (%06X)"]
-REQUIRED = ["df%d" % d for d in range(32)] + ["ap_text_echoed_in_payload", "case_upper", "case_lower", "case_mixed", "len56", "len112", "table_one_key",
+REQUIRED = ["df%d" % d for d in range(32)] + ["ap_text_echoed_in_payload", "table_identical_replies_two_aircraft", "case_upper", "case_lower", "case_mixed", "len56", "len112", "table_one_key",
                                               "allcall_rejects", "df_none"]
 
 AP = (0, 4, 5, 16, 20, 21)
@@ -119,6 +119,28 @@ def m_table(ctx, case):
     else:
         ctx.hit("table_one_key")
     ctx.nontrivial(("t", a, b))
+    if case.get("twin"):
+        # two transponders answering with bit-identical content (same header, same MB) in one batch: the address lives in
+        # the AP field only, so each reply still has to end up under its own aircraft
+        addr2 = addr ^ (1 << rng.randrange(24))
+        hdr, mb = rng.fill(27), rng.choice((0, rng.fill(56)))
+        a1 = "%028X" % bits.es_frame(17, 5, addr, me)
+        a2 = "%028X" % bits.es_frame(17, 5, addr2, me)
+        b1 = "%028X" % bits.commb_frame(case["df"], hdr, mb, addr)
+        b2 = "%028X" % bits.commb_frame(case["df"], hdr, mb, addr2)
+        if case["hexcase2"] == "lower":
+            b1, b2 = b1.lower(), b2.lower()
+        d = Decode()
+        r = call(d.process_raw, [100.0, 100.2], [a1, a2], [101.0, 101.5], [b1, b2], 102.0)
+        ctx.ev()
+        if r[0] != "ok":
+            ctx.violation("process_raw-raises", frames=[a1, a2, b1, b2], observed=r[1:])
+            return
+        k1, k2 = "%06X" % addr, "%06X" % addr2
+        got = {k: v.get("t") for k, v in d.acs.items()}
+        if got != {k1: 101.0, k2: 101.5}:
+            ctx.violation("commb-attached-to-wrong-aircraft", frames=[a1, a2, b1, b2], expected={k1: 101.0, k2: 101.5}, observed=got)
+        ctx.hit("table_identical_replies_two_aircraft")
 
 
 MONITORS = {"icao": m_icao, "table": m_table}
@@ -148,4 +170,4 @@ def cases(ctx):
                        "hexcase": rng.choice(("upper", "upper", "lower", "mixed")), "ic": 0}
     for k in range(ctx.share(3000 if quick else 20000)):
         yield "table", {"addr": rng.fill(24) | 0xA00000, "cs": "%X" % rng.fill(48), "df": rng.choice((20, 21)),
-                        "hexcase": "upper" if k % 2 == 0 else rng.choice(("lower", "mixed")), "hexcase2": rng.choice(("upper", "lower"))}
+                        "hexcase": "upper" if k % 2 == 0 else rng.choice(("lower", "mixed")), "hexcase2": rng.choice(("upper", "lower")), "twin": k % 2 == 0}
